@@ -1,3 +1,4 @@
+import CbiVerif.Props.C17Table
 import CbiVerif.Model.FSource
 import CbiVerif.Model.FCond
 import CbiVerif.Spec.FortranRef
